@@ -180,13 +180,21 @@ func (s *sys) touched(c fsx.Call) []string {
 	add := func(p string) {
 		// the empty path is taken to name the current directory (generous)
 		abs, _ := s.v.Abs(p)
-		t = append(t, abs)
 
-		func() {
-			defer func() { _ = recover() }()
+		// a drive letter names its volume in either case: an operand spelled
+		// `c:\x` names what `C:\x` names (generous: it can only allow more)
+		for _, a := range uniq(abs, s.canonVol(abs)) {
+			t = append(t, a)
 
-			t = append(t, fsx.ResolveLoose(s.v, abs)...)
-		}()
+			func() {
+				defer func() { _ = recover() }()
+
+				// a link target keeps the spelling it was made with
+				for _, r := range fsx.ResolveLoose(s.v, a) {
+					t = append(t, uniq(r, s.canonVol(r))...)
+				}
+			}()
+		}
 	}
 
 	switch c.Op {
@@ -200,6 +208,24 @@ func (s *sys) touched(c fsx.Call) []string {
 	}
 
 	return t
+}
+
+// canonVol spells the drive letter of a Windows path in the case the volume
+// table of the instances uses (`C:`); other paths are returned as they are.
+func (s *sys) canonVol(p string) string {
+	if s.win && len(p) >= 2 && p[1] == ':' && p[0] >= 'a' && p[0] <= 'z' {
+		return strings.ToUpper(p[:1]) + p[1:]
+	}
+
+	return p
+}
+
+func uniq(a, b string) []string {
+	if a == b {
+		return []string{a}
+	}
+
+	return []string{a, b}
 }
 
 func (s *sys) Step(op int) bsr {
@@ -569,6 +595,10 @@ func (s *sys) operandClass(c fsx.Call, dump []string) string {
 			note = "unclean:"
 		}
 
+		if cv := s.canonVol(abs); cv != abs {
+			abs, note = cv, note+"drivecase:"
+		}
+
 		if abs == s.root || abs == strings.TrimSuffix(s.root, s.sep) {
 			return note + "root"
 		}
@@ -611,6 +641,7 @@ func (s *sys) operandClass(c fsx.Call, dump []string) string {
 	rel := func(a, b string) string {
 		aa, _ := s.v.Abs(a)
 		bb, _ := s.v.Abs(b)
+		aa, bb = s.canonVol(aa), s.canonVol(bb)
 
 		switch {
 		case aa == bb:
@@ -963,6 +994,69 @@ func buildOps(name string, win bool, tier string) []fsx.Call {
 		}
 	}
 
+	// Spelling of the operands (Windows-typed systems). A path of the Windows
+	// kind has several spellings that name the same object: the drive letter in
+	// either case, forward slashes for separators, a rooted path without the
+	// volume (the volume of the current directory). Code that resolves a path
+	// one way (the volume looked up with the case folded, the separators
+	// normalised) and COMPARES paths another way (the strings the caller wrote:
+	// "is the new name below the old one", "are both the same entry", lock
+	// order, map keys) is only right while every operand is spelled alike. So
+	// every canonical path is also written in each other spelling, for the
+	// one-path calls and, for the two-path calls, for each operand independently
+	// (one spelled, the other canonical) - thorough: both spelled alike too.
+	// Whether a spelling resolves at all is not judged here: a refused call
+	// that leaves the tree alone satisfies the invariants.
+	if win {
+		sps := spellings(tier)
+
+		// quick: the spelled operand is any path but the root; of the one-path
+		// calls those that make, remove and keep a path (MkdirAll, RemoveAll,
+		// Chdir), of the two-path calls Rename (the call that compares its two
+		// operands with each other). Thorough: the root too, every one-path call
+		// of the core, Link, Symlink (new name and target: a link keeps the
+		// spelling of its target and hands it to every later resolution), and
+		// Rename with both operands spelled alike.
+		spelled := paths[1:]
+		if tier == "thorough" {
+			spelled = paths
+		}
+
+		for _, sp := range sps {
+			for _, p := range spelled {
+				sp1 := sp.f(p)
+
+				ops = append(ops,
+					fsx.Call{Op: "MkdirAll", A: sp1, Perm: 0o750},
+					fsx.Call{Op: "RemoveAll", A: sp1},
+					fsx.Call{Op: "Chdir", A: sp1},
+				)
+
+				for _, q := range paths {
+					ops = append(ops, fsx.Call{Op: "Rename", A: sp1, B: q}, fsx.Call{Op: "Rename", A: q, B: sp1})
+				}
+
+				if tier != "thorough" {
+					continue
+				}
+
+				ops = append(ops,
+					fsx.Call{Op: "Mkdir", A: sp1, Perm: 0o755},
+					fsx.Call{Op: "Remove", A: sp1},
+					fsx.Call{Op: "WriteFile", A: sp1, Data: "x", Perm: 0o644},
+					fsx.Call{Op: "Symlink", A: "a", B: sp1},
+					fsx.Call{Op: "Symlink", A: sp.f(j("a")), B: j("ab")},
+				)
+
+				for _, q := range paths {
+					ops = append(ops, fsx.Call{Op: "Link", A: sp1, B: q}, fsx.Call{Op: "Link", A: q, B: sp1})
+
+					ops = append(ops, fsx.Call{Op: "Rename", A: sp1, B: sp.f(q)})
+				}
+			}
+		}
+	}
+
 	targets := []string{"a", j("a"), j("ab", "a"), "..", "nope"}
 	for _, t := range targets {
 		for _, q := range paths {
@@ -971,6 +1065,52 @@ func buildOps(name string, win bool, tier string) []fsx.Call {
 	}
 
 	return ops
+}
+
+// spelling writes a canonical Windows path (`C:\a\ab`) another way.
+type spelling struct {
+	name string
+	f    func(string) string
+}
+
+// spellings lists the other ways an operand of a Windows-typed system is
+// written: drive letter in the other case, forward slashes, no volume (rooted
+// at the volume of the current directory); thorough: also two at once
+// (lower case drive with forward slashes).
+func spellings(tier string) []spelling {
+	lower := func(p string) string { return strings.ToLower(p[:1]) + p[1:] }
+	slash := func(p string) string { return strings.ReplaceAll(p, `\`, "/") }
+	sps := []spelling{
+		{"drive letter in lower case (c:\\a)", lower},
+		{"forward slashes (C:/a)", slash},
+		{"rooted without volume (\\a)", func(p string) string { return p[2:] }},
+	}
+
+	if tier == "thorough" {
+		sps = append(sps,
+			spelling{"lower case drive and forward slashes (c:/a)", func(p string) string { return slash(lower(p)) }},
+		)
+	}
+
+	return sps
+}
+
+// spellingsText describes the spelling dimension for the evidence file.
+func spellingsText(tier string) string {
+	var names []string
+	for _, sp := range spellings(tier) {
+		names = append(names, sp.name)
+	}
+
+	if tier == "thorough" {
+		return "Windows-typed systems: every path of the name universe (root, a, ab, x/y) also spelled with " + strings.Join(names, "; ") +
+			" - as the operand of Mkdir, MkdirAll, Remove, RemoveAll, WriteFile, Chdir, as the new name and as the target of Symlink, and as the operands of Rename and Link: one spelled and the other canonical; Rename also with both spelled alike"
+	}
+
+	t := "Windows-typed systems: every path of the name universe but the root (a, ab, x/y) also spelled with " + strings.Join(names, "; ") +
+		" - as the operand of MkdirAll, RemoveAll, Chdir, and as either operand of Rename, the other operand any canonical path of the name universe"
+
+	return t
 }
 
 // modeCalls returns the calls on p that take a mode argument, with the
@@ -1307,10 +1447,11 @@ func main() {
 		Coverage: map[string]any{
 			"states": states, "transitions": trans, "traces_validated_against_impl": trans,
 			"evaluations": trans, "distinct_nontrivial": len(outcomes),
-			"rule":           "every history of length <= bound over the call alphabet (valid, invalid and aliased operands; every call that takes a mode - Chmod, File.Chmod, Mkdir, MkdirAll, OpenFile, WriteFile - also with a mode argument that carries file type bits foreign to the node, on every path of the name universe) executed on fresh real instances; distinct_nontrivial = distinct (call, outcome kind) classes observed",
-			"mode_arguments": modeArgsText(*tier),
-			"samples":        samples,
-			"exhaustive":     exh, "bound": fmt.Sprintf("histories of length <= %d (completed %d)", d, depthDone),
+			"rule":              "every history of length <= bound over the call alphabet (valid, invalid and aliased operands; on the Windows-typed systems the operands also in the other spellings of a path, see operand_spellings; every call that takes a mode - Chmod, File.Chmod, Mkdir, MkdirAll, OpenFile, WriteFile - also with a mode argument that carries file type bits foreign to the node, on every path of the name universe) executed on fresh real instances; distinct_nontrivial = distinct (call, outcome kind) classes observed",
+			"mode_arguments":    modeArgsText(*tier),
+			"operand_spellings": spellingsText(*tier),
+			"samples":           samples,
+			"exhaustive":        exh, "bound": fmt.Sprintf("histories of length <= %d (completed %d)", d, depthDone),
 			"systems": all, "known_findings_matched": rep.KnownMatched(), "ostype_build": ostBuild, "windows_typed_run": ostRun, "concurrent_final_state_invariants": conc,
 		},
 		Assumptions: []string{
@@ -1318,6 +1459,7 @@ func main() {
 			"a successful call may change: its operands, what they resolve to, everything below them, members of their hard-link classes, ancestors created by MkdirAll, the temp name returned",
 			"random part of temp names is supplied by the harness (2 values, forced collisions)",
 			"the kind of an entry (directory / regular file / symbolic link) never changes while the entry exists, except at the destination of a successful Rename; Lstat reports exactly that kind and no mode bit besides type, permission, setuid, setgid, sticky (the mode argument of a call is any fs.FileMode; as in package os only its permission and special bits are used)",
+			"on the Windows-typed systems an operand in another spelling (drive letter in the other case, forward slashes, no volume) is taken to name what the canonical spelling names when the frame conditions are evaluated; whether such a spelling resolves is not judged, only the tree it leaves",
 			"mode arguments with type bits keep the permission bits of the plain call of the alphabet (a library that masks reaches no further state); special bits are combined with type bits in the thorough tier only",
 		},
 		Violations: rep.NewCount(),
